@@ -251,6 +251,74 @@ pub struct ClientCase {
 pub enum Case {
     Server(ServerCase),
     Client(ClientCase),
+    /// thorough tier only: /verif/featcheck compiled with exactly this one compression feature of tonic and run
+    /// as a fixed-seed proptest campaign of its own (client::Grpc <-> server::Grpc in-process)
+    Feature(FeatureBuild),
+}
+
+#[derive(Clone, Debug, Serialize, Deserialize)]
+pub struct FeatureBuild {
+    pub feature: String,
+    pub cases: u32,
+    pub seed: u64,
+    /// Some: replay this one case of the campaign instead (the shrunk failure featcheck saved)
+    #[serde(default)]
+    pub case: Option<serde_json::Value>,
+}
+
+static FEATURE_RUNS: std::sync::Mutex<Vec<String>> = std::sync::Mutex::new(Vec::new());
+
+fn run_feature(f: &FeatureBuild, o: &mut Outcome) -> Result<(), Failure> {
+    use std::process::Command;
+    let root = verif_root();
+    ensure!(["gzip", "deflate", "zstd"].contains(&f.feature.as_str()), "C05/harness", "unknown feature {:?}", f.feature);
+    let target = format!("{root}/target/featcheck-{}", f.feature);
+    let b = Command::new("cargo")
+        .args(["build", "--release", "--offline", "--no-default-features", "--features", &f.feature, "--target-dir", &target])
+        .current_dir(format!("{root}/featcheck"))
+        .env_remove("CARGO_TARGET_DIR")
+        .env_remove("RUSTFLAGS")
+        .env("CARGO_NET_OFFLINE", "true")
+        .output();
+    match b {
+        Ok(out) if out.status.success() => {}
+        other => {
+            let why = match other {
+                Ok(out) => String::from_utf8_lossy(&out.stderr).lines().filter(|l| l.starts_with("error")).take(3).collect::<Vec<_>>().join(" | "),
+                Err(e) => e.to_string(),
+            };
+            // tonic may legitimately stop compiling with a single feature only if the tree is broken in a way the
+            // registered build would show too; nothing can be said about the property here
+            println!("INCONCLUSIVE property=C05 featcheck does not build with only the {} feature: {why}", f.feature);
+            std::process::exit(2);
+        }
+    }
+    let bin = format!("{target}/release/featcheck");
+    let out = if let Some(case) = &f.case {
+        let path = std::env::temp_dir().join(format!("vh-c05-feature-{}-{}.json", std::process::id(), f.feature));
+        std::fs::write(&path, serde_json::to_string(case).unwrap()).map_err(|e| Failure { sig: "C05/harness-io".into(), detail: e.to_string() })?;
+        let r = Command::new(&bin).args(["replay", path.to_str().unwrap()]).output();
+        let _ = std::fs::remove_file(&path);
+        r
+    } else {
+        Command::new(&bin).args(["run", &f.cases.to_string(), &f.seed.to_string(), &format!("{root}/replays/C05")]).output()
+    };
+    let out = out.map_err(|e| Failure { sig: "C05/harness-io".into(), detail: format!("{bin}: {e}") })?;
+    let text = String::from_utf8_lossy(&out.stdout).to_string();
+    o.label(match f.feature.as_str() {
+        "gzip" => "build_with_only_gzip",
+        "deflate" => "build_with_only_deflate",
+        _ => "build_with_only_zstd",
+    });
+    o.nontrivial = true;
+    if let Some(l) = text.lines().find(|l| l.starts_with("FEATCHECK")) {
+        FEATURE_RUNS.lock().unwrap().push(l.to_string());
+        return Ok(());
+    }
+    let sig = text.lines().find_map(|l| l.strip_prefix("signature: ")).unwrap_or("C05/single-feature/featcheck-died").to_string();
+    let detail = text.lines().find_map(|l| l.strip_prefix("detail: ")).unwrap_or("").to_string();
+    let saved = text.lines().find_map(|l| l.split("replay=").nth(1)).unwrap_or("-");
+    Err(Failure { sig, detail: format!("tonic built with only the {} feature: {detail} [shrunk case: {saved}; exit {:?}; stderr: {}]", f.feature, out.status.code(), String::from_utf8_lossy(&out.stderr).lines().rev().take(3).collect::<Vec<_>>().join(" | ")) })
 }
 
 // ------------------------------------------------------------------ generator
@@ -281,7 +349,20 @@ pub fn ordered_subsets() -> Vec<Vec<Enc>> {
 }
 
 fn subset() -> impl Strategy<Value = Vec<Enc>> {
-    (0usize..16).prop_map(|i| ordered_subsets()[i].clone())
+    // an ordered subset; sometimes an encoding is enabled again later in the sequence (enabling is
+    // idempotent: the set, not the call sequence, is what is configured)
+    (0usize..16, prop_oneof![4 => Just(0u8), 1 => 1u8..=3], any::<u16>()).prop_map(|(i, again, sel)| {
+        let mut v = ordered_subsets()[i].clone();
+        for k in 0..again {
+            if v.is_empty() {
+                break;
+            }
+            let e = v[crate::infra::gen::pick(sel.wrapping_mul(k as u16 + 1), v.len())];
+            // re-enable an early one first, then the rest of the subset once more
+            v.insert(0, e);
+        }
+        v
+    })
 }
 fn enc() -> impl Strategy<Value = Enc> {
     prop_oneof![Just(Enc::Gzip), Just(Enc::Deflate), Just(Enc::Zstd)]
@@ -999,6 +1080,7 @@ pub fn run(c: &Case, o: &mut Outcome) -> Result<(), Failure> {
     match c {
         Case::Server(s) => run_server(s, o),
         Case::Client(s) => run_client(s, o),
+        Case::Feature(f) => run_feature(f, o),
     }
 }
 
@@ -1194,7 +1276,7 @@ impl Prop for C05 {
         run(c, o)
     }
     fn rule() -> &'static str {
-        "proptest + enumerated matrix. Server half (3/5 of cases): generated vt.Raw server (also tonic::server::Grpc directly, builder methods or apply_compression_config) with send-set and accept-set = any ordered subset of {gzip,deflate,zstd} (16 x 16), all four call shapes, called in-process; request grpc-accept-encoding absent / one or two header lines of 0-5 tokens from {gzip,deflate,zstd,identity,br,snappy,GZIP,gzip;q=1,empty,non-ASCII token} each with optional SP/HTAB around it / opaque bytes; request grpc-encoding in {absent,identity,gzip,deflate,zstd,br,GZIP,non-UTF-8,empty}; 1-3 request frames with flag 0/1 and payload plain / really compressed with the header's encoding / really compressed with another encoding / garbage; handler optionally calls disable_compression. Oracle (independent model): response grpc-encoding absent/identity or a known encoding that is in the send-set AND among the request's offered tokens (comma-split, OWS-trimmed, exact lower-case match, all header lines); every flag-1 response frame passes the magic check and independent decompression of the announced encoding to the handler's message, flag-0 frames carry the plain message; a flag-1 frame requires an announced encoding (an announced encoding with flag-0 frames is allowed: per-message compression is optional); disable_compression on unary/client-streaming responses => flag 0; the announced encoding must not change when the optional whitespace is removed from the accept list; request grpc-encoding not identity and not in the accept-set => handler not called, trailers-only UNIMPLEMENTED whose grpc-accept-encoding lists exactly the accept-set (as a set, identity ignored; may be absent when the set is empty); flag 1 with no/identity grpc-encoding => INTERNAL (unary: handler not called; streaming: the request stream yields it after the earlier messages); request compressed with an accepted encoding reaches the handler as the original message; flag-0 payloads reach it verbatim; a flag-1 payload the independent decompressor rejects is not delivered. Client half (2/5): generated vt.Raw client over the mock transport, send_compressed in {none,gzip,deflate,zstd}, accept_compressed any ordered subset, four shapes; scripted response grpc-encoding (same 9 values) and 0-3 response frames (same flag/payload classes). Oracle: request grpc-encoding present iff configured and equal to it, every request frame flag 1 + magic + independent decompression to the message (flag 0 plain when nothing configured); grpc-accept-encoding lists exactly the accept-set (set compare, identity ignored) or is absent when empty; response grpc-encoding not identity and outside the accept-set => UNIMPLEMENTED; flag 1 without negotiated encoding => INTERNAL; accepted encoding => messages recovered. Non-trivial: server: send/accept/offered sets pairwise different, or accept header with unknown tokens / OWS / non-ASCII, or a frame flag contradicting the header; client: accept-set != {send}, or refused response encoding, or flag contradicting the header."
+        "proptest + enumerated matrix. Server half (3/5 of cases): generated vt.Raw server (also tonic::server::Grpc directly, builder methods or apply_compression_config) with send-set and accept-set = any ordered subset of {gzip,deflate,zstd} (16 x 16), all four call shapes, called in-process; request grpc-accept-encoding absent / one or two header lines of 0-5 tokens from {gzip,deflate,zstd,identity,br,snappy,GZIP,gzip;q=1,empty,non-ASCII token} each with optional SP/HTAB around it / opaque bytes; request grpc-encoding in {absent,identity,gzip,deflate,zstd,br,GZIP,non-UTF-8,empty}; 1-3 request frames with flag 0/1 and payload plain / really compressed with the header's encoding / really compressed with another encoding / garbage; handler optionally calls disable_compression. Oracle (independent model): response grpc-encoding absent/identity or a known encoding that is in the send-set AND among the request's offered tokens (comma-split, OWS-trimmed, exact lower-case match, all header lines); every flag-1 response frame passes the magic check and independent decompression of the announced encoding to the handler's message, flag-0 frames carry the plain message; a flag-1 frame requires an announced encoding (an announced encoding with flag-0 frames is allowed: per-message compression is optional); disable_compression on unary/client-streaming responses => flag 0; the announced encoding must not change when the optional whitespace is removed from the accept list; request grpc-encoding not identity and not in the accept-set => handler not called, trailers-only UNIMPLEMENTED whose grpc-accept-encoding lists exactly the accept-set (as a set, identity ignored; may be absent when the set is empty); flag 1 with no/identity grpc-encoding => INTERNAL (unary: handler not called; streaming: the request stream yields it after the earlier messages); request compressed with an accepted encoding reaches the handler as the original message; flag-0 payloads reach it verbatim; a flag-1 payload the independent decompressor rejects is not delivered. Client half (2/5): generated vt.Raw client over the mock transport, send_compressed in {none,gzip,deflate,zstd}, accept_compressed any ordered subset, four shapes; scripted response grpc-encoding (same 9 values) and 0-3 response frames (same flag/payload classes). Oracle: request grpc-encoding present iff configured and equal to it, every request frame flag 1 + magic + independent decompression to the message (flag 0 plain when nothing configured); grpc-accept-encoding lists exactly the accept-set (set compare, identity ignored) or is absent when empty; response grpc-encoding not identity and outside the accept-set => UNIMPLEMENTED; flag 1 without negotiated encoding => INTERNAL; accepted encoding => messages recovered. Non-trivial: server: send/accept/offered sets pairwise different, or accept header with unknown tokens / OWS / non-ASCII, or a frame flag contradicting the header; client: accept-set != {send}, or refused response encoding, or flag contradicting the header. Also: enabling an encoding that is already enabled (send/accept) keeps the set and order of the others."
     }
     fn assumptions() -> Vec<String> {
         vec![
@@ -1211,8 +1293,23 @@ impl Prop for C05 {
             Tier::Thorough => 7_500_000,
         }
     }
-    fn fixed_cases(_t: Tier) -> Vec<Case> {
-        fixed_cases()
+    fn fixed_cases(t: Tier) -> Vec<Case> {
+        let mut v = fixed_cases();
+        if t == Tier::Thorough && std::env::var("VERIF_NO_FEATURE_BUILDS").is_err() {
+            let seed = std::env::var("VERIF_SEED").ok().and_then(|s| s.parse::<u64>().ok()).unwrap_or(0);
+            for f in ["gzip", "deflate", "zstd"] {
+                v.push(Case::Feature(FeatureBuild { feature: f.to_string(), cases: 20_000, seed, case: None }));
+            }
+        }
+        v
+    }
+    fn extra_evidence() -> Option<serde_json::Value> {
+        let runs = FEATURE_RUNS.lock().unwrap().clone();
+        if runs.is_empty() {
+            None
+        } else {
+            Some(serde_json::json!({ "single_feature_builds": runs }))
+        }
     }
     fn fixed_is_exhaustive() -> Option<&'static str> {
         Some("server: all 16x16 ordered (send, accept) subsets x 7 grpc-accept-encoding headers; all 16 accept-sets x 9 request grpc-encoding values x flag 0/1 x {unary, bidi}; client: 4 send settings x 16 accept-sets x 9 response grpc-encoding values x flag 0/1")
